@@ -105,8 +105,6 @@ package meshops
 // targets memory allocated by the call itself; no functional postcondition is claimed here) ----
 //@ func CenterAttribute3DTransformer.Transform frameonly
 //@   props C01
-//@ func CenterFloat3Attribute frameonly
-//@   props C01
 //@ func ColorGradingLutTransformer.Transform frameonly
 //@   props C01
 //@ func ColorGradingLut frameonly
@@ -139,11 +137,7 @@ package meshops
 //@   props C01
 //@ func NormalizeAttribute3DTransformer.Transform frameonly
 //@   props C01
-//@ func NormalizeAttribute3D frameonly
-//@   props C01
 //@ func NormalizeAttribute2DTransformer.Transform frameonly
-//@   props C01
-//@ func NormalizeAttribute2D frameonly
 //@   props C01
 //@ func RemoveNullFaces3DTransformer.Transform frameonly
 //@   props C01
@@ -153,19 +147,11 @@ package meshops
 //@   props C01
 //@ func RotateAttribute3DTransformer.Transform frameonly
 //@   props C01
-//@ func RotateAttribute3D frameonly
-//@   props C01
 //@ func ScaleAttribute3DTransformer.Transform frameonly
-//@   props C01
-//@ func ScaleAttribute3D frameonly
 //@   props C01
 //@ func ScaleAttributeAlongNormalTransformer.Transform frameonly
 //@   props C01
-//@ func ScaleAttributeAlongNormal frameonly
-//@   props C01
 //@ func ScaleAttribute2DTransformer.Transform frameonly
-//@   props C01
-//@ func ScaleAttribute2D frameonly
 //@   props C01
 //@ func SliceByPlaneTransformer.Transform frameonly
 //@   props C01
@@ -182,8 +168,6 @@ package meshops
 //@ func SplitOnUniqueMaterials frameonly
 //@   props C01
 //@ func TranslateAttribute3DTransformer.Transform frameonly
-//@   props C01
-//@ func TranslateAttribute3D frameonly
 //@   props C01
 //@ func UnweldTransformer.Transform frameonly
 //@   props C01
@@ -254,3 +238,80 @@ package meshops
 //@   loop 2:
 //@     invariant [C01,C02] list: fresh(finalIndices) && 0 <= i
 //@     invariant [C02] kept_indices_in_range: forall j int :: 0 <= j && j < len(finalIndices) ==> modeling.valInRange(m, finalIndices[j])
+
+// ---- one-attribute transformers: exactly the named attribute changes, by the stated map (C03) ----------
+//@ func TranslateAttribute3D
+//@   props C01 C02 C03
+//@   returns r
+//@   ensures nothing_else: modeling.onlyV3Replaced(r, m, attribute)
+//@   ensures elementwise: forall i int :: 0 <= i && i < len(m.v3Data[attribute]) ==> r.v3Data[attribute][i] == m.v3Data[attribute][i].Add(amount)
+//@   loop 1:
+//@     invariant bounds: 0 <= i && i <= len(scaledData) && len(scaledData) == len(m.v3Data[attribute]) && fresh(scaledData) && off(scaledData) == 0 && oldData != nil && oldData.data == m.v3Data[attribute]
+//@     invariant done: forall j int :: 0 <= j && j < i ==> scaledData[j] == m.v3Data[attribute][j].Add(amount)
+//@ func ScaleAttribute3D
+//@   props C01 C02 C03
+//@   returns r
+//@   ensures nothing_else: modeling.onlyV3Replaced(r, m, attribute)
+//@   ensures elementwise: forall i int :: 0 <= i && i < len(m.v3Data[attribute]) ==> r.v3Data[attribute][i] == origin.Add(m.v3Data[attribute][i].Sub(origin).MultByVector(amount))
+//@   loop 1:
+//@     invariant bounds: 0 <= i && i <= len(scaledData) && len(scaledData) == len(m.v3Data[attribute]) && fresh(scaledData) && off(scaledData) == 0 && oldData != nil && oldData.data == m.v3Data[attribute]
+//@     invariant done: forall j int :: 0 <= j && j < i ==> scaledData[j] == origin.Add(m.v3Data[attribute][j].Sub(origin).MultByVector(amount))
+//@ func ScaleAttribute2D
+//@   props C01 C02 C03
+//@   returns r
+//@   ensures nothing_else: modeling.onlyV2Replaced(r, m, attribute)
+//@   ensures elementwise: forall i int :: 0 <= i && i < len(m.v2Data[attribute]) ==> r.v2Data[attribute][i] == origin.Add(m.v2Data[attribute][i].Sub(origin).MultByVector(amount))
+//@   loop 1:
+//@     invariant bounds: 0 <= i && i <= len(scaledData) && len(scaledData) == len(m.v2Data[attribute]) && fresh(scaledData) && off(scaledData) == 0 && oldData != nil && oldData.data == m.v2Data[attribute]
+//@     invariant done: forall j int :: 0 <= j && j < i ==> scaledData[j] == origin.Add(m.v2Data[attribute][j].Sub(origin).MultByVector(amount))
+//@ func RotateAttribute3D
+//@   props C01 C02 C03
+//@   returns r
+//@   ensures nothing_else: modeling.onlyV3Replaced(r, m, attribute)
+//@   ensures elementwise: forall i int :: 0 <= i && i < len(m.v3Data[attribute]) ==> r.v3Data[attribute][i] == q.Rotate(m.v3Data[attribute][i])
+//@   loop 1:
+//@     invariant bounds: 0 <= i && i <= len(scaledData) && len(scaledData) == len(m.v3Data[attribute]) && fresh(scaledData) && off(scaledData) == 0 && oldData != nil && oldData.data == m.v3Data[attribute]
+//@     invariant done: forall j int :: 0 <= j && j < i ==> scaledData[j] == q.Rotate(m.v3Data[attribute][j])
+//@ func ScaleAttributeAlongNormal
+//@   props C01 C02 C03
+//@   requires same_length: len(m.v3Data[attributeToScale]) == len(m.v3Data[normalAttribute])
+//@   returns r
+//@   ensures nothing_else: modeling.onlyV3Replaced(r, m, attributeToScale)
+//@   ensures elementwise: forall i int :: 0 <= i && i < len(m.v3Data[attributeToScale]) ==>
+//@       r.v3Data[attributeToScale][i] == m.v3Data[attributeToScale][i].Add(m.v3Data[normalAttribute][i].Scale(amount))
+//@   loop 1:
+//@     invariant bounds: 0 <= i && i <= len(scaledData) && len(scaledData) == len(m.v3Data[attributeToScale]) && fresh(scaledData) && off(scaledData) == 0 &&
+//@                       positionData != nil && positionData.data == m.v3Data[attributeToScale] && normalData != nil && normalData.data == m.v3Data[normalAttribute]
+//@     invariant done: forall j int :: 0 <= j && j < i ==> scaledData[j] == m.v3Data[attributeToScale][j].Add(m.v3Data[normalAttribute][j].Scale(amount))
+
+// centre / normalise: frame and length proved; the value map (subtract the bounding-box centre / divide by the
+// largest length) is carried as "one common offset / one common divisor"
+//@ func CenterFloat3Attribute
+//@   props C01 C02 C03
+//@   returns r
+//@   ensures nothing_else: modeling.onlyV3Replaced(r, m, attr)
+//@   ensures one_common_offset: forall i int, j int :: 0 <= i && i < len(m.v3Data[attr]) && 0 <= j && j < len(m.v3Data[attr]) ==>
+//@       r.v3Data[attr][i].X() - r.v3Data[attr][j].X() == m.v3Data[attr][i].X() - m.v3Data[attr][j].X() &&
+//@       r.v3Data[attr][i].Y() - r.v3Data[attr][j].Y() == m.v3Data[attr][i].Y() - m.v3Data[attr][j].Y() &&
+//@       r.v3Data[attr][i].Z() - r.v3Data[attr][j].Z() == m.v3Data[attr][i].Z() - m.v3Data[attr][j].Z()
+//@   loop 1:
+//@     invariant bounds: 0 <= i && len(modified) == len(m.v3Data[attr]) && fresh(modified) && off(modified) == 0 && oldData != nil && oldData.data == m.v3Data[attr]
+//@   loop 2:
+//@     invariant bounds: 0 <= i && i <= len(modified) && len(modified) == len(m.v3Data[attr]) && fresh(modified) && off(modified) == 0 && oldData != nil && oldData.data == m.v3Data[attr]
+//@     invariant done: forall j int :: 0 <= j && j < i ==> modified[j] == m.v3Data[attr][j].Sub(center)
+//@ func NormalizeAttribute3D
+//@   props C01 C02 C03
+//@   returns r
+//@   ensures nothing_else: modeling.onlyV3Replaced(r, m, attribute)
+//@   loop 1:
+//@     invariant bounds: 0 <= i && oldData != nil && oldData.data == m.v3Data[attribute]
+//@   loop 2:
+//@     invariant bounds: 0 <= i && i <= len(scaledData) && len(scaledData) == len(m.v3Data[attribute]) && fresh(scaledData) && off(scaledData) == 0 && oldData != nil && oldData.data == m.v3Data[attribute]
+//@ func NormalizeAttribute2D
+//@   props C01 C02 C03
+//@   returns r
+//@   ensures nothing_else: modeling.onlyV2Replaced(r, m, attribute)
+//@   loop 1:
+//@     invariant bounds: 0 <= i && oldData != nil && oldData.data == m.v2Data[attribute]
+//@   loop 2:
+//@     invariant bounds: 0 <= i && i <= len(scaledData) && len(scaledData) == len(m.v2Data[attribute]) && fresh(scaledData) && off(scaledData) == 0 && oldData != nil && oldData.data == m.v2Data[attribute]
